@@ -93,7 +93,11 @@ func multiBody(stack []Spec, exes []ExeSpec, o MultiOpts) func() {
 					vrt.GoH(fmt.Sprintf("canceller%d", x.ID), func() {
 						defer wg.Done()
 						vrt.Sleep(int64(es.CancelAt))
+						env.obs()
+						x.CancelTick0, x.CancelTime = env.Tick, vrt.Elapsed()
 						cancel()
+						env.obs()
+						x.CancelTick1 = env.Tick
 					})
 				case "deadline":
 					ctx, cancel := vcontext.WithDeadline(context.Background(), time.Unix(0, vrt.Now()).Add(es.CancelAt-es.StartAt))
@@ -112,7 +116,12 @@ func multiBody(stack []Spec, exes []ExeSpec, o MultiOpts) func() {
 							if d := int64(es.CancelAt) - vrt.Elapsed(); d > 0 {
 								vrt.Sleep(d)
 							}
+							env.obs()
+							x.CancelTick0, x.CancelTime = env.Tick, vrt.Elapsed()
+							x.DoneBeforeCancel = res.IsDone()
 							res.Cancel()
+							env.obs()
+							x.CancelTick1 = env.Tick
 						})
 					}
 					x.ResV, x.ResE = res.Get()
